@@ -234,6 +234,12 @@ def main(args):
         combos = [(rp["case"]["spec_case"], rp["case"]["ws"], rp["case"]["origin"], rp["case"]["unsaved"])]
     else:
         cases = wcommon.gen(run, 40 if not thorough else 800, maxtx=2)
+        # workspaces in which every file also carries a price directive: the two commodities it names are occurrences of
+        # those symbols (known finding commodity-occurrences-in-price-directives-are-not-found)
+        priced = wcommon.gen(run, 6 if not thorough else 60, maxtx=1, prices=True)
+        for c in priced:
+            c["_trigger"] = "price-directive"
+        cases = cases + priced
         combos = []
         ntriple = 0
         for c in cases:
@@ -263,7 +269,7 @@ def main(args):
         for sig, what in evaluate(run, c, ws, origin, unsaved, hc, probes, shift, res):
             tag = ("unsaved:" if unsaved is True else (unsaved + ":") if unsaved else "") + sig
             table[(tag, ws, "root" if origin == 0 else "included")] += 1
-            run.diverge(tag, "%s  [workspace root %s, unsaved edits %s, files %s]" % (what, ws, unsaved, [f["name"] for f in c["files"]]), case, None)
+            run.diverge(tag, "%s  [workspace root %s, unsaved edits %s, files %s]" % (what, ws, unsaved, [f["name"] for f in c["files"]]), case, None, trigger=c.get("_trigger"))
     if os.environ.get("VERIF_TABLE"):
         for k, n in sorted(table.items(), key=str):
             print("TABLE", k, n)
